@@ -11,6 +11,7 @@ the derivation that follows a backjump is the correctness of the satisfier searc
 -/
 import PubgrubProofs.ReachabilityC04
 import PubgrubProofs.RangeAnyOrder
+import PubgrubProofs.Examples
 
 namespace Pubgrub.C04
 open Pubgrub
@@ -39,5 +40,8 @@ theorem C04_range_solution_reachable (W : World P (Range V) V M) (hW : W.RangesW
   range_solution_reachable W hW debug fuel root rv s sel h p v hp
 
 end AnyOrder
+
+/-! Non-vacuity on concrete runs (PubgrubProofs/Examples.lean, evaluated by `decide +kernel`; registered in
+obligations.json so that their axioms are audited too): `Examples.example_A_solution_reachable`. -/
 
 end Pubgrub.C04
